@@ -73,10 +73,14 @@ process_events_semaphore = asyncio.Semaphore(1)
 
 
 def _history_cache_messages(messages):
-    """The part of the messages that identifies a history cache entry (role and content)."""
+    """The part of the messages that identifies a history cache entry (role and content).
+
+    Only the messages that are part of the history cache key are considered.
+    """
     return [
         (msg["role"], msg["event"] if msg["role"] == "event" else msg.get("content"))
         for msg in messages
+        if msg["role"] in ["user", "assistant", "context", "event"]
     ]
 
 
